@@ -177,6 +177,40 @@ fn noop_waker() -> Waker {
     Waker::from(Arc::new(Noop))
 }
 
+/// The waker of one application task (a script, or the reader of one stream): counts wakes.
+#[derive(Default)]
+struct TaskWaker(std::sync::atomic::AtomicUsize);
+impl Wake for TaskWaker {
+    fn wake(self: Arc<Self>) {
+        self.0.fetch_add(1, std::sync::atomic::Ordering::SeqCst);
+    }
+    fn wake_by_ref(self: &Arc<Self>) {
+        self.0.fetch_add(1, std::sync::atomic::Ordering::SeqCst);
+    }
+}
+
+/// An application task as an executor sees it: once a poll returned Pending the task is only
+/// polled again after its waker has fired.
+#[derive(Default)]
+struct Task {
+    waker: Arc<TaskWaker>,
+    /// `Some(wake count at the time of the Pending poll)` while parked
+    parked: Option<usize>,
+}
+
+impl Task {
+    fn count(&self) -> usize {
+        self.waker.0.load(std::sync::atomic::Ordering::SeqCst)
+    }
+    /// may the executor poll this task now?
+    fn runnable(&self) -> bool {
+        self.parked.is_none_or(|seen| self.count() > seen)
+    }
+    fn waker(&self) -> Waker {
+        Waker::from(self.waker.clone())
+    }
+}
+
 // ------------------------------------------------------------------------------------------
 // endpoint
 // ------------------------------------------------------------------------------------------
@@ -448,6 +482,8 @@ impl Endpoint {
 
 pub struct Pipe {
     pub cfg: Cfg,
+    /// application tasks: "app<side>" (the script) and "read<side>:<slot>" (one reader each)
+    tasks: BTreeMap<String, Task>,
     ep: [Endpoint; 2],
     /// reference per (sending side, stream id) direction
     dirs: BTreeMap<(usize, u64), RefStream>,
@@ -476,7 +512,7 @@ fn initial_stream_limit(cfg: &Cfg, sender: usize, sid: StreamId) -> u64 {
 impl Pipe {
     pub fn new(cfg: Cfg) -> Pipe {
         let ep = [Endpoint::new(Role::Client, &cfg), Endpoint::new(Role::Server, &cfg)];
-        Pipe { cfg, ep, dirs: BTreeMap::new(), steps: 0 }
+        Pipe { cfg, tasks: BTreeMap::new(), ep, dirs: BTreeMap::new(), steps: 0 }
     }
 
     fn dir_mut(&mut self, sender: usize, sid: StreamId) -> &mut RefStream {
@@ -487,10 +523,22 @@ impl Pipe {
 
     /// Runs the next script step of `side`; returns whether it completed.
     fn app_step(&mut self, side: usize) -> Result<bool, Fail> {
+        self.app_step_forced(side, false)
+    }
+
+    /// `force`: poll even though the task is parked and was not woken (used only to decide, at
+    /// quiescence, whether a parked task sleeps on a satisfied condition).
+    fn app_step_forced(&mut self, side: usize, force: bool) -> Result<bool, Fail> {
         let Some(step) = self.cfg.scripts[side].get(self.ep[side].pc).cloned() else {
             return Ok(false);
         };
-        let waker = noop_waker();
+        let key = format!("app{side}");
+        let task = self.tasks.entry(key.clone()).or_default();
+        if !force && !task.runnable() {
+            return Ok(false);
+        }
+        let seen = task.count();
+        let waker = task.waker();
         let mut cx = Context::from_waker(&waker);
         let done = match step {
             Step::OpenBi | Step::OpenUni => {
@@ -649,12 +697,25 @@ impl Pipe {
         if done {
             self.ep[side].pc += 1;
         }
+        // a step that could not complete parks the script until its waker fires
+        let pending_poll = !done && matches!(step2kind(&self.cfg.scripts[side], self.ep[side].pc), StepKind::Polls);
+        self.tasks.get_mut(&key).unwrap().parked = if pending_poll { Some(seen) } else { None };
         Ok(done)
     }
 
     /// One read; returns the number of bytes read, or None for Pending.
     fn read(&mut self, side: usize, slot: usize, cap: usize) -> Result<Option<usize>, Fail> {
-        let waker = noop_waker();
+        self.read_forced(side, slot, cap, false)
+    }
+
+    fn read_forced(&mut self, side: usize, slot: usize, cap: usize, force: bool) -> Result<Option<usize>, Fail> {
+        let key = format!("read{side}:{slot}");
+        let task = self.tasks.entry(key.clone()).or_default();
+        if !force && !task.runnable() {
+            return Ok(None);
+        }
+        let seen = task.count();
+        let waker = task.waker();
         let mut cx = Context::from_waker(&waker);
         let Some(h) = self.ep[side].handles.get_mut(slot) else { return Ok(None) };
         let sid = h.sid;
@@ -663,6 +724,7 @@ impl Pipe {
         let res = r.poll_read(&mut cx, &mut buf);
         let sender = 1 - side;
         let d = self.dirs.entry((sender, u64::from(sid))).or_default();
+        self.tasks.get_mut(&key).unwrap().parked = if res.is_pending() { Some(seen) } else { None };
         match res {
             Poll::Pending => {
                 ensure!(buf.buf.is_empty(), "c01/pending-with-data", "poll_read returned Pending but wrote {} bytes", buf.buf.len());
@@ -938,6 +1000,20 @@ impl Pipe {
     }
 }
 
+enum StepKind {
+    /// the step is a poll that may return Pending (and then waits for its waker)
+    Polls,
+    /// the step cannot be taken yet for a harness reason (e.g. the handle does not exist yet)
+    Other,
+}
+
+fn step2kind(script: &[Step], pc: usize) -> StepKind {
+    match script.get(pc) {
+        Some(Step::Cancel { .. }) | Some(Step::Stop { .. }) | None => StepKind::Other,
+        Some(_) => StepKind::Polls,
+    }
+}
+
 fn strip_addresses(s: &str) -> String {
     // `Waker { data: 0x…, vtable: 0x… }` and similar pointers differ between replays
     let mut out = String::with_capacity(s.len());
@@ -988,13 +1064,18 @@ impl System for Pipe {
             }
         }
         for side in 0..2 {
-            if self.ep[side].pc < self.cfg.scripts[side].len() {
+            // an executor polls a task only when it is new or its waker has fired
+            let runnable = |key: String| self.tasks.get(&key).is_none_or(|t| t.runnable());
+            if self.ep[side].pc < self.cfg.scripts[side].len() && runnable(format!("app{side}")) {
                 v.push(Op::App { side });
             }
             for (slot, h) in self.ep[side].handles.iter().enumerate() {
                 if h.reader.is_some() {
                     let d = self.dirs.get(&(1 - side, u64::from(h.sid)));
                     if d.is_some_and(|d| d.eof_seen || d.reset_seen) {
+                        continue;
+                    }
+                    if !runnable(format!("read{side}:{slot}")) {
                         continue;
                     }
                     for &cap in &self.cfg.read_caps {
@@ -1101,6 +1182,9 @@ impl System for Pipe {
             ));
         }
         s.push_str(&format!("{:?}", self.dirs));
+        for (k, t) in &self.tasks {
+            s.push_str(&format!("|{k}:{}{}", t.parked.is_some() as u8, t.runnable() as u8));
+        }
         s
     }
 
@@ -1154,6 +1238,42 @@ impl System for Pipe {
                 }
             }
             if !progress {
+                // Quiescent. Every parked task must really be waiting for something: poll the
+                // parked ones once without a wake-up — if such a poll completes, the task was
+                // sleeping on a satisfied condition (a lost wake-up).
+                let mut woke_late = false;
+                for side in 0..2 {
+                    let parked = self.tasks.get(&format!("app{side}")).is_some_and(|t| !t.runnable());
+                    if parked {
+                        let pc = self.ep[side].pc;
+                        if self.app_step_forced(side, true)? {
+                            return Err(Fail::new(
+                                "c01/lost-wakeup/application-operation",
+                                format!(
+                                    "{:?}: script step {pc} ({:?}) returned Pending, its waker was never fired, yet polling it again completes: the task would sleep for ever",
+                                    self.ep[side].role,
+                                    self.cfg.scripts[side].get(pc)
+                                ),
+                            ));
+                        }
+                    }
+                    for slot in 0..self.ep[side].handles.len() {
+                        let parked = self.tasks.get(&format!("read{side}:{slot}")).is_some_and(|t| !t.runnable());
+                        if parked {
+                            if let Some(n) = self.read_forced(side, slot, 64, true)? {
+                                let sid = self.ep[side].handles[slot].sid;
+                                return Err(Fail::new(
+                                    "c01/lost-wakeup/reader",
+                                    format!(
+                                        "{:?}: a read on {sid:?} returned Pending, its waker was never fired, yet polling again yields {n} byte(s) / end-of-stream: the reading task would sleep for ever",
+                                        self.ep[side].role
+                                    ),
+                                ));
+                            }
+                        }
+                    }
+                }
+                let _ = &mut woke_late;
                 break;
             }
             ensure!(round + 1 < max_rounds, "c01/livelock", "the completion run did not quiesce in {max_rounds} rounds");
